@@ -259,7 +259,13 @@ func (in *c02Inst) Fingerprint() string {
 		}
 		fmt.Fprintf(&b, "|%s l=%v rem=%v held=%d", m.name, m.listed, rem, len(m.held))
 		if be := in.k.backendByName(m.name); be != nil {
-			fmt.Fprintf(&b, " flag=%v conns=%d", be.IsHealthy, be.ActiveConnections)
+			// the real window end belongs to the state as well: an implementation whose window
+			// differs from the monitor's must not be merged with one whose window agrees
+			ur := be.UnhealthyUntil.Sub(vrt.Now())
+			if ur < 0 {
+				ur = -1
+			}
+			fmt.Fprintf(&b, " flag=%v until=%v conns=%d", be.IsHealthy, ur, be.ActiveConnections)
 		}
 	}
 	fmt.Fprintf(&b, "|added=%d", in.added)
